@@ -79,3 +79,9 @@ claim("C08",
       "Structural skeleton of a mining round on every CFG path: the returned proof passed getValidProofs and getBindingProofs of the mining spaces' proofs for the template challenge; a template is built only behind best-quality > target(template timestamp) with qualities verified per proof and slot; slot and timestamp advance in one block; every slot evaluation re-tests quit and the stale monitor and is bounded by now+allowAhead; PoC hash after the header is final and signed by the winning space; ProcessBlock only after the timestamp passed; a height is recorded only after acceptance and never solved again; the double-mining map is touched by the generator's functions only.",
       "Trusted: go/ssa, mass-core PoCTemplate/VerifiedQuality. NOT decided: that the maximum is the maximum and the slot the earliest (values/time); timing; engine.v2 miner (outside the property's anchors).",
       "DESIGN.md §4 C08")
+
+claim("C18",
+      "forward label (taint) analysis with shape-recognised sanitisers and a typestate refinement (isPrivate)",
+      "Decides ONLY width discipline, a necessary condition of BIP32 agreement and of text round-trip self-consistency: no minimal-length big-endian integer ((*big.Int).Bytes()) reaches a fixed-offset copy, an append into a serialisation buffer, a hash write or base58 without left-padding; pad helpers right-align. Interprocedural over hdkeychain + mnemonic code, field-based with the label of ExtendedKey.key refined by the isPrivate flag (pairing verified at the constructor call sites). The hardened-derivation copy of a possibly short private key is a recorded known finding.",
+      "Trusted: go/ssa; SetBytes/ScalarBaseMult/PrivKeyFromBytes width-insensitive. NOT decided (not applicable to static analysis): equality with BIP32/BIP39 for all inputs, public/private derivation agreement, mnemonic round trip.",
+      "DESIGN.md §4 C18")
